@@ -24,14 +24,18 @@ BUDGET = {'quick': 240, 'thorough': 600}
 # ip-set calls, which this property does not observe.
 HASH_INSENSITIVE = True
 
-SPEC_OWNERS = ['proid.a-1-aaaa', 'proid.a#1', 'proid.b-2-bbbb']
+# two incarnations of one instance, an owner whose basename equals the app
+# name of the specs (the boundary create_spec once compared against), another
+# instance
+SPEC_OWNERS = [seq.UNIQUE_NAMES[0], seq.UNIQUE_NAMES[1], 'proid.a#1',
+               seq.UNIQUE_NAMES[2]]
 P30 = ['192.168.0.1', '192.168.0.2', '192.168.0.0', '192.168.0.9']
 P29 = ['192.168.0.1', '192.168.0.6', '192.168.0.8']
 
 
 def seq_configs(quick):
     n = 2 if quick else 3
-    own = ['a', 'b', 'c'][:n]
+    own = seq.UNIQUE_NAMES[:n]
     d = 6 if quick else 9
     return [
         # name, cfg, depth, share of the sequential budget
@@ -40,11 +44,11 @@ def seq_configs(quick):
          7, 6),
         ('vip-pools 2x/30 one dir',
          seq.vip_pools_cfg(['10.8.0.0/30', '10.9.0.0/30'], own),
-         8 if quick else 9, 2),
+         9, 2),
         ('rules', seq.rule_cfg(own), d, 1),
-        ('specs', seq.spec_cfg(SPEC_OWNERS[:n]), d, 1),
+        ('specs', seq.spec_cfg(SPEC_OWNERS[:n + 1]), d + 1, 1),
         ('specs unlink_all filters',
-         seq.spec_filter_cfg(['proid.x-1-aaaa', 'proid.y-2-bbbb']), 6, 1),
+         seq.spec_filter_cfg(seq.UNIQUE_NAMES[:2]), 6, 1),
         ('netsvc/30', seq.netsvc_cfg('192.168.0.0/30', n), d, 1),
         ('netsvc/29', seq.netsvc_cfg('192.168.0.0/29', n), d, 1),
     ]
@@ -248,6 +252,7 @@ def _run(ctx, t0):
                                'init_while_other_pool_has_live_owner',
                                'filtered_release_next_to_unaddressed',
                                'ownerless_release',
+                               'release_with_empty_owner_of_held_entry',
                                'alloc_next_to_other_pool'):
         if cov['nontrivial_counters'].get(k, 0) == 0:
             raise statex.HarnessError('vacuous run: counter %s is 0' % k)
